@@ -23,7 +23,9 @@ use adf_bdd::adfbiodivine::Adf as BdAdf;
 use adf_bdd::obdd::Bdd;
 use adf_bdd::parser::AdfParser;
 
-use crate::config::{AppState, RunningInfo, Task, ADF_COLL, COMPUTE_TIME, DB_NAME, USER_COLL};
+use crate::config::{
+    AppState, RunningGuard, RunningInfo, Task, ADF_COLL, COMPUTE_TIME, DB_NAME, USER_COLL,
+};
 use crate::user::{username_exists, User};
 
 use crate::double_labeled_graph::DoubleLabeledGraph;
@@ -404,11 +406,8 @@ async fn add_adf_problem(
                 task: Task::Parse,
             };
 
-            app_state
-                .currently_running
-                .lock()
-                .unwrap()
-                .insert(running_info.clone());
+            // registered until the closure is left, also when the computation panics
+            let _running = RunningGuard::new(&app_state, running_info);
 
             #[cfg(feature = "mock_long_computations")]
             std::thread::sleep(Duration::from_secs(20));
@@ -433,12 +432,6 @@ async fn add_adf_problem(
 
                 (SimplifiedAdf::from(lib_adf), ac_and_graph)
             });
-
-            app_state
-                .currently_running
-                .lock()
-                .unwrap()
-                .remove(&running_info);
 
             result
         }),
@@ -564,11 +557,8 @@ async fn solve_adf_problem(
     let acs_and_graphs_fut = timeout(
         COMPUTE_TIME,
         spawn_blocking(move || {
-            app_state
-                .currently_running
-                .lock()
-                .unwrap()
-                .insert(running_info.clone());
+            // registered until the closure is left, also when the computation panics
+            let _running = RunningGuard::new(&app_state, running_info);
 
             #[cfg(feature = "mock_long_computations")]
             std::thread::sleep(Duration::from_secs(20));
@@ -596,12 +586,6 @@ async fn solve_adf_problem(
                     graph: DoubleLabeledGraph::from_adf_and_ac(&adf, Some(ac)),
                 })
                 .collect();
-
-            app_state
-                .currently_running
-                .lock()
-                .unwrap()
-                .remove(&running_info);
 
             acs_and_graphs
         }),
